@@ -289,6 +289,7 @@ func xrAlphabet(st xfStream) []xrOp {
 		add(xrOp{Kind: 's', Off: offs[i], Whence: io.SeekStart})
 	}
 	add(xrOp{Kind: 's', Off: -1, Whence: io.SeekStart})
+	add(xrOp{Kind: 's', Off: 0, Whence: io.SeekCurrent}) // "tell"
 	add(xrOp{Kind: 's', Off: 2, Whence: io.SeekCurrent})
 	add(xrOp{Kind: 's', Off: -3, Whence: io.SeekCurrent})
 	add(xrOp{Kind: 's', Off: -2, Whence: io.SeekEnd})
